@@ -10,7 +10,9 @@ import sys
 from . import common, dyn, protoc
 
 _G = {}
-SKIP_TYPES = ("TOneP",)            # (the optional=True flavour of oneof members only exists in the pydantic output)
+SKIP_TYPES = ("TOneP",)
+# a few fields carry [deprecated = true] in the printed schema (the generated class then gets extra code in __post_init__)
+DEPRECATED = {("TOne", "g_sfixed64"), ("TOne", "h_b"), ("TImpl", "i_uint32"), ("TMix", "j"), ("TOpt", "o_bool")}            # (the optional=True flavour of oneof members only exists in the pydantic output)
 
 
 def proto_text(schema, package):
@@ -51,12 +53,12 @@ def proto_text(schema, package):
                 out.append("  map<%s, %s> %s = %d;" % (f["kkind"], tname(f, f["vkind"]), f["name"], f["num"]))
             else:
                 pre = {"repeated": "repeated ", "optional": "optional "}.get(f["card"], "")
-                out.append("  %s%s %s = %d;" % (pre, tname(f, f["kind"]), f["name"], f["num"]))
+                out.append("  %s%s %s = %d%s;" % (pre, tname(f, f["kind"]), f["name"], f["num"], " [deprecated = true]" if (ty, f["name"]) in DEPRECATED else ""))
         for g in groups:
             out.append("  oneof %s {" % g)
             for f in fields:
                 if f["card"] == "oneof" and f["group"] == g:
-                    out.append("    %s %s = %d;" % (tname(f, f["kind"]), f["name"], f["num"]))
+                    out.append("    %s %s = %d%s;" % (tname(f, f["kind"]), f["name"], f["num"], " [deprecated = true]" if (ty, f["name"]) in DEPRECATED else ""))
             out.append("  }")
         out.append("}")
     return "\n".join(out) + "\n"
